@@ -3,7 +3,7 @@
 From Coq Require Import List ZArith String Bool.
 Import ListNotations.
 Require Import Naga.Base.Json.
-Require Import Naga.Dxil.BitsModel Naga.Dxil.BitstreamModel Naga.Dxil.DxbcModel Naga.Dxil.Md5Model Naga.Dxil.CheckModel.
+Require Import Naga.Dxil.BitsModel Naga.Dxil.BitstreamModel Naga.Dxil.DxbcModel Naga.Dxil.Md5Model Naga.Dxil.MetaModel Naga.Dxil.CheckModel.
 Require Import Naga.Gen.DxilConsts.
 Require Extraction.
 Require Import ExtrOcamlBasic.
@@ -186,7 +186,28 @@ Definition do_check (j : json) : json :=
             ("stat_same_bitcode", JBool (r_stat_same_bitcode r));
             ("hash_part_ok", JBool (r_hash_part_ok r));
             ("sfi0_ok", JBool (r_sfi0_ok r));
-            ("stream", json_of_res (match field_bool "want_tree" j with Some true => true | _ => false end) (r_stream r))]
+            ("stream", json_of_res (match field_bool "want_tree" j with Some true => true | _ => false end) (r_stream r));
+            ("meta", match r_meta r with
+                     | None => JNull
+                     | Some None => JObj [("ok", JBool false); ("err", JStr "module does not have the shape serialize.go emits (unknown or short record, block/function count)")]
+                     | Some (Some None) => JObj [("ok", JBool true)]
+                     | Some (Some (Some rf)) =>
+                       JObj [("ok", JBool false);
+                             ("err", JStr (let k := r_what rf in
+                                           if Z.eqb k 1 then "type id out of range" else if Z.eqb k 2 then "value id out of range"
+                                           else if Z.eqb k 3 then "basic block index out of range" else if Z.eqb k 4 then "metadata node id out of range"
+                                           else if Z.eqb k 5 then "attribute group/entry not defined" else "count mismatch"));
+                             ("at", JArr [JNum (r_what rf); JNum (r_idx rf); JNum (r_bound rf)])]
+                     end);
+            ("sig", match snd (r_sig r) with
+                    | None => JObj [("ok", JBool true)]
+                    | Some e => JObj [("ok", JBool false); ("err", JStr e)]
+                    end);
+            ("psv", match fst (r_sig r) with
+                    | Some i => JObj [("stage", JNum (psv_stage i)); ("sig_in", JNum (psv_sig_in i)); ("sig_out", JNum (psv_sig_out i));
+                                      ("resources", JNum (psv_nres i)); ("entry", jnums (psv_entry_name i)); ("threads", jnums (psv_threads i))]
+                    | None => JNull
+                    end)]
     end
   | None => jerr "bad check job"
   end.
